@@ -8,7 +8,8 @@ ROOT = mwh.ROOT
 TRUSTED_BASE = [
     "Coq 8.16.1 kernel (coqc, full .vo build; vm_compute used only for closed Examples; no native_compute); axioms: none (Print Assumptions under every theorem: Closed under the global context)",
     "the Paramcoq plugin (Rename.v, C20) only GENERATES the parametricity translation of the model; the generated definitions are checked by the kernel like hand-written ones",
-    "extraction (Require Extraction + ExtrOcamlBasic only: bool/option/list/prod/unit/sumbool -> OCaml; no Extract Constant, no other Extract Inductive), OCaml 4.13.1 compiler",
+    "extraction (Require Extraction + ExtrOcamlBasic only: bool/option/list/prod/unit/sumbool -> OCaml; no Extract Constant, no other Extract Inductive), OCaml 4.13.1 compiler; "
+    "validated at every build by the extraction self-check (bin/selfcheck: 60 generated configurations x histories over every policy combination, evaluated by vm_compute inside Coq and by the extracted code at the exact-rational instance, must print the same integers)",
     "driver/main.ml: tokenizer, binary64 instance of Num (incl. numpy pairwise sum and CPython 3.12 compensated sum re-implemented in OCaml), tape RngOps, printers",
     "harness/*.py: generators, GenProxy recording of numpy Generator requests, oracle capture (argpartition, k-means labels, tree leaves, cosine distances), canonicalisation and comparison",
     "IEEE binary64 agreement OCaml float = C double = CPython float; glibc exp/log/sqrt shared by CPython and OCaml",
